@@ -12,15 +12,56 @@ STRUCT_WEIGHTS = {
 }
 
 
+def rich_start(rng):
+    """A start state with the structures most properties talk about: a three-level source chain linked
+    from an array and a tag, a group with members, a multi-tag, a feature, a metadata tree linked from
+    several entities.  Used as the (optional) first ops of a run; everything after is random."""
+    return [
+        {"op": "create_block", "name": "blk", "type": "t", "compr": "Auto"},
+        {"op": "create_array", "blk": 0, "name": "a", "type": "t", "dtype": "float64", "shape": [4],
+         "vseed": 3, "route": "data", "compr": "Auto"},
+        {"op": "create_array", "blk": 0, "name": "n1", "type": "t", "dtype": "int16", "shape": [2, 3],
+         "vseed": 5, "route": "data", "compr": "Auto"},
+        {"op": "create_source", "par": 0, "name": "s", "type": "t"},
+        {"op": "create_source", "par": 1, "name": "t", "type": "t"},
+        {"op": "create_source", "par": 2, "name": "s", "type": "t"},
+        {"op": "link_append", "okind": "array", "o": 0, "list": 0, "t": 2},
+        {"op": "link_append", "okind": "array", "o": 1, "list": 0, "t": rng.randrange(3)},
+        {"op": "create_group", "blk": 0, "name": "a", "type": "t"},
+        {"op": "link_append", "okind": "group", "o": 0, "list": 0, "t": 0},
+        {"op": "link_append", "okind": "group", "o": 0, "list": 4, "t": 1},
+        {"op": "create_tag", "blk": 0, "name": "a", "type": "t", "position": [1.0]},
+        {"op": "link_append", "okind": "tag", "o": 0, "list": 0, "t": 1},
+        {"op": "link_append", "okind": "tag", "o": 0, "list": 1, "t": 2},
+        {"op": "create_feature", "tag": 0, "arr": 0, "lt": "untagged"},
+        {"op": "create_mtag", "blk": 0, "name": "a", "type": "t", "pos": 0, "ext": None},
+        {"op": "create_section", "par": 0, "name": "s", "type": "t"},
+        {"op": "create_section", "par": 1, "name": "t", "type": "t"},
+        {"op": "create_section", "par": 2, "name": "s", "type": "t"},
+        {"op": "create_property", "sec": 2, "name": "p", "t": "str", "route": "list", "vals": ["x", "ü"]},
+        {"op": "set_metadata", "h": 2, "sec": 2},
+        {"op": "set_metadata", "h": 0, "sec": rng.randrange(3)},
+    ]
+
+
 class C02(Profile):
     prop = "C02"
     name = "C02"
     weights = dict(STRUCT_WEIGHTS, observe=3)
     owned = ("state_", "reopen_", "alias_view")
     reopen_introspect = True
+    # deletes come mostly in the second half of a run, when trees and link topologies exist
+    late_ops = ("delete", "link_remove", "del_metadata")
+    build_fraction = 0.45
+    swarm_weights = True
+
+    rich_start_rate = 0.4
 
     def tune_knobs(self, k, rng):
         k["max_extent"] = min(k["max_extent"], 4)
+        k["n_ops"] = rng.randint(10, 50)
+        if rng.random() < 0.3:
+            k["names"] = list(P.NAMES_TREE) + ["n1", "x y"]     # few names: equal names in many parents
 
 
 class C10(Profile):
@@ -89,6 +130,7 @@ class C03(Profile):
 
 class C04(Profile):
     prop = "C04"
+    rich_start_rate = 0.3
     name = "C04"
     weights = {"create_block": 2, "create_group": 4, "create_array": 4, "create_tag": 3, "create_mtag": 3,
                "create_feature": 3, "create_source": 5, "create_section": 5, "create_property": 2,
@@ -127,8 +169,8 @@ class C05(Profile):
     weights = {"create_block": 2, "create_group": 4, "create_array": 5, "create_tag": 3, "create_mtag": 3,
                "create_feature": 3, "create_source": 4, "create_section": 3, "create_property": 2,
                "append_dim": 4, "link_dim": 5, "set_dim": 5, "unlink_dim": 3, "link_append": 12, "link_remove": 3,
-               "set_metadata": 5, "set_role": 4, "set_attr": 14, "observe": 4, "restart": 2,
-               "data_write": 5, "refused_link": 8}
+               "set_metadata": 5, "set_role": 6, "set_attr": 14, "observe": 4, "restart": 2,
+               "data_write": 5, "refused_link": 8, "create_frame": 2}
     owned = ("alias_view", "lookup_failed", "lookup_wrong_entity", "refused_changed_list")
     reopen_introspect = False
     never_off = ("restart", "link_append", "set_attr")
@@ -227,6 +269,7 @@ class C01(Profile):
 
 class C13(Profile):
     prop = "C13"
+    rich_start_rate = 0.3
     name = "C13"
     weights = {"create_block": 2, "create_group": 2, "create_array": 2, "create_tag": 2, "create_mtag": 1,
                "create_source": 9, "create_section": 9, "set_metadata": 7, "link_append": 7, "del_metadata": 1,
@@ -258,6 +301,7 @@ class C13(Profile):
 class C19(Profile):
     """timestamps: differential oracle over every entity around every op, simulated clock."""
     prop = "C19"
+    rich_start_rate = 0.3
     name = "C19"
     weights = {"create_block": 2, "create_group": 3, "create_array": 4, "create_tag": 3, "create_mtag": 2,
                "create_feature": 3, "create_source": 3, "create_section": 4, "create_property": 2,
@@ -360,6 +404,7 @@ class C19(Profile):
 
 class C12(Profile):
     prop = "C12"
+    rich_start_rate = 0.3
     name = "C12"
     level = "fault_enumeration"
     weights = dict(STRUCT_WEIGHTS, refused=38, data_write=2, data_append=2, data_resize=1,
@@ -622,6 +667,7 @@ class C11(Profile):
     """open modes: read-only sessions firing every kind of mutator, overwrite / read-write
     semantics; the header grid is enumerated in directed()."""
     prop = "C11"
+    rich_start_rate = 0.3
     name = "C11"
     level = "fault_enumeration"
     weights = dict(ALL_MUTATING, ro_session=9, mode_check=5, restart=2, grid_cell=2)
@@ -646,10 +692,11 @@ class C11(Profile):
 class C17(Profile):
     """crash (kill) at every flush()/close() return of the history."""
     prop = "C17"
+    rich_start_rate = 0.3
     name = "C17"
     level = "fault_enumeration"
-    weights = dict(ALL_MUTATING, crash=9, flush=2, restart=1, create_property=3, prop_values=3)
-    owned = ("crash_recovery",)
+    weights = dict(ALL_MUTATING, crash=9, flush=2, restart=2, create_property=3, prop_values=3, overwrite_reopen=1)
+    owned = ("crash_recovery", "reopen_failed")
     reopen_introspect = False
     never_off = ("crash",)
     fault_kinds = ("crash_after_flush", "crash_after_close")
